@@ -135,6 +135,9 @@ def binop(I, op, a, b, node, inplace=False):
                 a.extend(b)
                 return a
             return a + b
+        from .absval import BT as _BT2
+        if isinstance(a, _BT2) or isinstance(b, _BT2):
+            return _BT2.cat(a, b)
         sa, sb = as_sbytes(a), as_sbytes(b)
         if sa is not None and sb is not None and not (isinstance(a, bytes) and isinstance(b, bytes)):
             return sbytes_concat(sa, sb)
@@ -154,11 +157,18 @@ def binop(I, op, a, b, node, inplace=False):
             I.ctx.notes.add("seq * symbolic n")
             return SBytes(z3.simplify(n), lambda k, x=x: L.to_z3(L.num(x)), (0, 256) if isinstance(a, bytes) else None,
                           "bytes" if isinstance(a, bytes) else "list")
+    if isinstance(op, ast.Mult) and isinstance(a, SBytes) and isinstance(a.n, int) and a.n == 1 and L.is_z3(b):
+        x = a.at(0)
+        n = z3.simplify(z3.If(b > 0, b, 0))
+        return SBytes(n, lambda k, x=x: L.to_z3(x), a.elem_range, a.kind)
     if isinstance(op, ast.Mod) and isinstance(a, (str, bytes)):
         return str_format(I, a, b, node)
     hook = getattr(a, "__sym_binop__", None)
     if hook:
         return hook(I, op, b, node)
+    from .absval import BT as _BT
+    if isinstance(b, _BT) and isinstance(op, ast.Add):
+        return _BT.cat(a, b)
     raise SymError("binop %s on %s, %s (%s)" % (type(op).__name__, type(a).__name__, type(b).__name__, sx._txt(node)))
 
 
@@ -201,6 +211,8 @@ def bitop(I, op, a, b, node):
         for x in (a, b):
             if isinstance(x, int):
                 ok = ok and 0 <= x < lim
+            elif x.get_id() in I.ctx.known_bytes:
+                ok = ok and True
             else:
                 I.ctx.solver.push()
                 I.ctx.solver.add(z3.Not(z3.And(x >= 0, x < lim)))
@@ -215,7 +227,10 @@ def bitop(I, op, a, b, node):
     ba = z3.Int2BV(L.to_z3(a), w)
     bb = z3.Int2BV(L.to_z3(b), w)
     r = {ast.BitAnd: ba & bb, ast.BitOr: ba | bb, ast.BitXor: ba ^ bb}[type(op)]
-    return z3.BV2Int(r, False)
+    out = z3.BV2Int(r, False)
+    if w <= 8:
+        I.ctx.known_bytes.add(out.get_id())
+    return out
 
 
 # ---------------------------------------------------------------------------
@@ -272,6 +287,16 @@ def identical(a, b):
 
 
 def equal(I, a, b, node=None):
+    from .absval import BT as _BT, Undecided as _Und, bt_eq as _bt_eq
+    if isinstance(a, _BT) or isinstance(b, _BT):
+        r = _bt_eq(a, b)
+        if isinstance(r, _Und):
+            # a data-dependent comparison (e.g. a computed hash against a stored one): an uninterpreted outcome,
+            # logged so that contracts can speak about it
+            ok = I.ctx.choose([True, False], "bytes-equal?")
+            I.ctx.choice_log.append(("bytes-eq", r.a, r.b, ok))
+            return ok
+        return r
     if is_num(a) and is_num(b):
         return L.eq(I.numeric(a), I.numeric(b))
     if a is None or b is None:
@@ -760,7 +785,7 @@ def call_type(I, f, args, kwargs, node, fr):
         return sx.SExc(f, args)
     from . import builtins_model
 
-    h = builtins_model.TYPES.get(f)
+    h = builtins_model.TYPES.get(f) or builtins_model.LIB.get(f)
     if h:
         return h(I, args, kwargs, node)
     if (f.__module__ or "").startswith("pdfminer"):
